@@ -97,7 +97,19 @@ CLAIMS = {
         "note": "Does not decide the run-time merge of polygon + line into marker lines nor arcs taken from the big-circle catalogue.",
         "technique": "table abstract evaluation (exact rational geometry, SVG arc semantics) + syntax-tree agreement rules (Display/CSS/marker ids) + MIR expression patterns",
     },
+    "C19": {
+        "text": "Structural decision on the MIR of svgbob_cli: what is written (fs::write, `{}\\n` on stdout, batch files) is the unmodified result of to_svg_with_settings on the input text and the settings local the options were stored into; the input text has exactly the three sources (inline with \\n expanded, file, stdin); each value-taking option is consumed under its own name into the Settings field of that name; every non-zero exit is control-dependent on an error outcome and exit(0) on success; no Result of a workspace function is dropped (exit, `?`, or counted failure controlling an Err return); the library prints nothing on the conversion path except two reviewed diagnostics.",
+        "design_ref": "DESIGN.md section 4 C19",
+        "note": "Trusts clap and std::fs; partial output on I/O failure is not decided. Two genuine defects repaired by fix: commits b17f08e and 2fe06fa.",
+        "technique": "MIR expression patterns, control dependence (exit discipline), reachability census (stdout), syntax-tree option table",
+    },
+    "C20": {
+        "text": "Structural decision on svgbob_server: one route \"/\" with GET hello / POST text_to_svgbob and no layer, fallback, body-limit or state call; POST returns Ok(unmodified svgbob::to_svg of the strict from_utf8 of the whole body) or Err(BAD_REQUEST); GET returns \"{} {}\" of the package name/version constants; no static, lock, atomic, State or Extension in the crate; no process exit/abort reachable from a handler.",
+        "design_ref": "DESIGN.md section 4 C20",
+        "note": "Runtime behaviour of axum/hyper/tokio (limits, concurrency, panic isolation) is assumed as documented, not decided.",
+        "technique": "MIR expression patterns + framework-call census + reachability census",
+    },
 }
 
 NOT_APPLICABLE = {p: _PENDING for p in
-                  ["C01", "C04", "C05", "C06", "C10", "C15", "C19", "C20"]}
+                  ["C01", "C04", "C05", "C06", "C10", "C15"]}
